@@ -11,7 +11,7 @@ TRUSTED = [
 ]
 ASSUME = [
     "the curve library implements a bilinear group of prime order; SHA-256 commitments",
-    "memberships in which node and party identifiers coincide, identifiers 1..n (other maps: C06, large identifiers: C13)",
+    "memberships in which node and party identifiers coincide (the property's own quantifier; other maps: C06); every second full-stack schedule draws the identifiers from the corners of the 16-bit range (0, 255/256, 32768, 65535 ...), the others use 1..n",
     "completion ('to completion', 'obtains a signature') is observed on real runs with generous deadlines, not proved: real time, the Go scheduler and eventual wake-ups are outside the model; links are FIFO (the bundled transport)",
     "orchestrated signing is exercised with the BLS partial signer made interactive by one point-to-point round (as every real multi-round protocol is); with the plain non-interactive signer a party can finish and remove its pre-signing synchroniser "
     "before a slower party's query arrives: known finding KF-C01-fastsigner, reproduced by a steered schedule on every run",
